@@ -41,6 +41,7 @@ fn gens(tier: Tier) -> Vec<Gen> {
         Gen::exhaustive("encode_static_entries", 99),
         Gen::new("encode_random_lists", tier.pick(2, 400, 40_000)),
         Gen::exhaustive("decode_prefix_all_2_bytes", 256),
+        Gen::exhaustive("decode_prefix_boundary_values", 1),
         Gen::exhaustive("decode_body_len_0_2", 257),
         if tier == Tier::Thorough {
             Gen::exhaustive("decode_body_len_3", 65536)
@@ -439,6 +440,28 @@ fn run_case(gen: &str, index: u64, seed: u64, _tier: Tier, rep: &mut Report) {
             }
             if index == 5 {
                 rep.sample(json!({"decode": "0500 d1", "reference": "MUST_REJECT ric!=0"}));
+            }
+        }
+        "decode_prefix_boundary_values" => {
+            // Required Insert Count and Delta Base are prefixed integers of any size: every
+            // combination of boundary values (up to 2^64-1, in minimal and padded encodings), both
+            // sign bits, alone and followed by a field line
+            let vals: [u64; 14] = [0, 1, 2, 127, 128, 255, 1 << 31, (1 << 32) - 1, 1 << 62, (1 << 63) - 1, 1 << 63, (1 << 63) + 1, u64::MAX - 1, u64::MAX];
+            for ric in vals {
+                for db in vals {
+                    for sign in [0u8, 1] {
+                        for pad in [0usize, 1] {
+                            let mut sec = Vec::new();
+                            rq::int_encode_padded(8, 0, ric, pad, &mut sec);
+                            rq::int_encode_padded(7, sign, db, pad, &mut sec);
+                            check_decode(&sec, rep);
+                            sec.push(0xd1);
+                            check_decode(&sec, rep);
+                            rep.distinct_direct += 2;
+                            rep.count("prefix_boundary_sections");
+                        }
+                    }
+                }
             }
         }
         "decode_body_len_0_2" => {
